@@ -117,6 +117,7 @@ type vfPeerConn struct {
 	TLSState   *tls.ConnectionState
 	closed     bool
 	pushback   *vfElem
+	idle       time.Duration // when set, a silent client makes Next fail after this long (script pacing only)
 }
 
 func (pc *vfPeerConn) reset(c net.Conn) {
@@ -201,6 +202,9 @@ func (pc *vfPeerConn) Next() (vfElem, error) {
 	}
 	for {
 		start := pc.tee.length()
+		if pc.idle > 0 {
+			pc.c.SetReadDeadline(time.Now().Add(pc.idle))
+		}
 		t, err := pc.dec.Token()
 		if err != nil {
 			e := vfElem{Kind: "eof", Text: err.Error(), Seq: vfTick(), TLS: pc.inTLS}
